@@ -21,10 +21,48 @@ def finding_key(req, obs, detail):
         # a disagreement that needs several known deviations at once is filed under the first one
         # (the harness only names a deviation when switching it on in the reference reproduces the real output)
         return f"differs-from-C[{m.group(1)}]"
-    return req
+    # (vlib's shrinker accepts any failing candidate when the key of an empty detail is the request itself)
+    return req if detail else "no-oracle-detail"
+
+
+def _balanced(req):
+    """parentheses balanced in every #define line and over every run of text lines: a smaller program that is not is
+    another kind of program (an argument list that begins in a replacement list and ends behind it)"""
+    f = req.split("\t")
+    groups = [[e] for e in f[1].split("|")] if f[1] != "-" else []
+    for ff in f[2:]:
+        run = []
+        for part in ff.split("|")[1:]:
+            if part.startswith("T"):
+                run.append(part)
+            else:
+                groups.append(run)
+                run = []
+                if part.startswith("D"):
+                    groups.append([part])
+        groups.append(run)
+    for g in groups:
+        d = 0
+        for part in g:
+            for t in part.split(" "):
+                if t == "(":
+                    d += 1
+                elif t == ")":
+                    d -= 1
+                    if d < 0:
+                        return False
+        if d != 0:
+            return False
+    return True
 
 
 def shrink(req):
+    for cand in _shrink(req):
+        if _balanced(cand):
+            yield cand
+
+
+def _shrink(req):
     f = req.split("\t")
     # drop one API define
     if f[1] != "-":
@@ -89,7 +127,7 @@ def custom(ctx):
     ctx.standard_run()
     if not ctx.spec.get("harness") or not ctx.harness_ok:
         return
-    reqs = sorted(r for r in ctx.distinct if r.startswith("C12.run\t"))
+    reqs = sorted(r for r in ctx.distinct if r.startswith(("C12.run\t", "C12.hof\t")))
     if not reqs:
         return
     answers = ctx.run_model(["C12.tame" + r[len("C12.run"):] for r in reqs])
@@ -145,7 +183,9 @@ SPEC = {
         "differs_unused_argument_expanded", "differs_argument_repainted",
         "differs_painted_function_name_reinvoked", "differs_painted_function_name_reinvoked_acyclic",
         "differs_function_name_before_vanished_macro", "differs_empty_argument_next_to_paste",
-        "agrees_on_invocation_completed_after_expansion", "differs_outside_class_with_paste",
+        "differs_argument_list_ends_behind_replacement_list",
+        "agrees_on_invocation_completed_after_expansion", "agrees_on_higher_order_invocation",
+        "differs_outside_class_with_paste",
         "differs_invocation_spanning_file_boundary"]],
     "harness": "c12",
     "nontrivial": nontrivial,
@@ -162,11 +202,15 @@ SPEC = {
                   "expand_refines_spec_with_paste[_decided], class TameP decided by tameRunP -- about half of the generated "
                   "programs): object- and function-like macros, any number of parameters, nested invocations in arguments and "
                   "replacement lists, parenthesised commas, self- and mutually referential macros, ## between tokens of the "
-                  "replacement list and/or parameters; for tables of object-like macros every token list is tame "
+                  "replacement list and/or parameters, HIGHER-ORDER USE (the bare name of a function-like macro passed as an "
+                  "argument and invoked by the replacement list, APPLY(NEG, a), X-macro lists LIST(DECL), CALL(ADD, (p, q)): side "
+                  "condition ArgOK = what the argument expanded to names no enabled macro OR nothing was expanded in the argument "
+                  "(AllKept) -- its tokens then carry exactly the hide set of the invocation; witnesses "
+                  "agrees_on_higher_order_invocation); for tables of object-like macros every token list is tame "
                   "(object_like_refines_spec: object-like macros in full). The side conditions of the class are each shown "
                   "necessary by a witness evaluated in Lean on model and reference (differs_*: unused "
                   "argument, argument repainted, painted name re-invoked, name before a vanished macro, empty argument next to "
-                  "##) and replayed on the real code. Since fix f08088c the search for the '(' of an invocation skips line ends "
+                  "##, argument list that begins in a replacement list and ends behind it) and replayed on the real code. Since fix f08088c the search for the '(' of an invocation skips line ends "
                   "like C (invocation_may_continue_on_next_line: universally, parenAfter finds '(' iff the next token that is "
                   "not white space is '('; agrees_line_end_before_parenthesis: the former witnesses now lie in the class). ## : one paste step replaces l ws* ## ws* r by one token spelled l+r "
                   "(paste_is_single_token); which joined spellings are one token agrees with the lexer model of C10 "
@@ -182,7 +226,11 @@ SPEC = {
                   "expansion are excluded from the class (universal statement for the model: trailing_function_name_is_invoked; "
                   "agreement with C on witnesses only). The "
                   "correspondence run checks on every generated program that lies in the class (driver op C12.tame) that the real "
-                  "preprocessor equals the harness's independent reference preprocessor.",
+                  "preprocessor equals the harness's independent reference preprocessor. The rescan of the substituted replacement "
+                  "list is pinned as unconditional in the source (Gen userArmStatements / bodyAlwaysRescanned in source_shape). The "
+                  "oracle recognises a known deviation class ONLY by exact mimicry: the reference run with the mimic switches of "
+                  "the named classes reproduces the real output token for token (a rejection by a rejection); anything else is "
+                  "'unexplained' = an unlisted finding, reported with a shrunk input.",
     "rule": "requests = (API define list, include graph of files given line by line as token lists); the harness renders the "
             "files, checks with the real lexer that every line lexes to exactly the request's tokens, runs the real "
             "rssl_preprocess::preprocess + prepare_tokens and compares kinds/values of the result with the model and with an "
@@ -195,13 +243,21 @@ SPEC = {
             "repeated and back-edge includes; every leading object-like definition placed in the file, in the API list, and split; "
             "generated programs run in a worker process under a time/memory limit (expansion blow-up = known finding); "
             "every program is also classified by the model (C12.tame): inside the class of expand_refines_spec_with_paste_decided the "
-            "real output must equal the reference; non-trivial = a macro is defined and at least three tokens come out",
+            "real output must equal the reference; second family (request C12.hof, a fifth of the programs): 1-3 function-like "
+            "'worker' macros whose names are passed as arguments to 1-2 'combinator' macros that invoke them (F(X..), F(1) F(2) .., "
+            "F X with a parenthesised list, F(F(X)), a relay H2 -> H1), replacement lists of parameters, literals and punctuation "
+            "with and without an identifier of their own, combinators in the file or in the API list -- judged strictly: any "
+            "difference from the reference fails under a key of its own; a disagreement with the reference is attributed to known "
+            "deviation classes only if the reference with exactly their mimic switches reproduces the real output, the first "
+            "unexplained programs are shrunk in the harness (parentheses kept balanced); non-trivial = a macro is defined and at "
+            "least three tokens come out",
     "trusted_base": [
         "Lean 4.33 kernel; axioms propext / Classical.choice / Quot.sound only (audited by #print axioms)",
         "tools/gens/c12.py (MacroTables: any_word keyword arms, preprocess_command directive arms and the retain/push shape of "
         "define/undef, the pragma names, Token::is_whitespace, the apply_macros_internal call that expands arguments, every "
         "MacroSearchPosition literal and the conditions of find_single_macro that consult it, the three trimming loops and "
-        "which of them split_macro_args / find_single_macro / the arity test use, the Macro::parse + retain + push "
+        "which of them split_macro_args / find_single_macro / the arity test use, the statement sequence of the User arm "
+        "from substitution to splice (no guard around the rescan), the Macro::parse + retain + push "
         "path of initial defines, compile()'s built-in defines) and tools/gens/c10.py (LexTables, for paste_matches_lexer) — "
         "re-run on /repo's working tree every time",
         "hand-written Model/Macro.lean and Model/Include.lean mirror preprocess.rs; tied to the code by the correspondence run only",
@@ -209,7 +265,11 @@ SPEC = {
         "Lemmas.MacroTame.Tame / Lemmas.MacroTameP.TameP / Model.MacroTame.tameRun, tameRunP: the definition of the class of "
         "the refinement theorems",
         "Model/Lexer.lean (C10's lexer model) for paste_matches_lexer",
-        "harness reference preprocessor (Rust) = the oracle of the correspondence run; the lexer is used as given (C10)",
+        "harness reference preprocessor (Rust) = the oracle of the correspondence run, incl. its mimic switches (one per known "
+        "deviation class: they only decide whether a failure is filed under a known finding, never whether it is a failure); "
+        "the lexer is used as given (C10)",
+        "the resource class expansion-explodes-without-persistent-paint (C12.limit requests of the corpus) is recognised by size "
+        "(> 1000 x the reference's token count, or time/memory limit), not by reproducing the output",
     ],
     "assumptions": [
         "tokens are identifiers, decimal integers without suffix, ( ) , ## and the operators + - * ; = { }; white space is one "
@@ -219,5 +279,8 @@ SPEC = {
         "real file name (FileLoader serves the content stored when a real name was first seen; a request that gives two "
         "contents to one real name is answered 'unsupported' by the model)",
         "include recursion is cut by fuel in the model (the code has no bound: C08)",
+        "a compilation that the real code rejects counts as reproduced by a reference run that rejects it, whatever the error "
+        "kinds (a program with two errors may meet them in another order); the generators keep parentheses balanced in "
+        "replacement lists (the unbalanced case is the known finding argument-list-ends-behind-replacement-list, corpus only)",
     ],
 }
